@@ -3451,6 +3451,10 @@ impl ContinuityStore {
 
     fn load_next_seq_for(&self, continuity_id: &str) -> Result<u64, io::Error> {
         if let Ok(Some(last_seq)) = self.stream_cache.try_read_last_seq(continuity_id) {
+            #[cfg(rip_verif)]
+            rip_kernel::verif::point("nextseq.loaded", || {
+                serde_json::json!({"stream": continuity_id, "value": last_seq.saturating_add(1), "source": "sidecar"})
+            });
             return Ok(last_seq.saturating_add(1));
         }
 
@@ -3655,7 +3659,11 @@ fn save_index(path: &Path, index: &ContinuityIndexV1) -> io::Result<()> {
         .map_err(|err| io::Error::new(io::ErrorKind::InvalidData, err))?;
     let tmp = path.with_extension("json.tmp");
     fs::write(&tmp, payload)?;
+    #[cfg(rip_verif)]
+    rip_kernel::verif::point("index.tmp", || serde_json::json!({}));
     fs::rename(tmp, path)?;
+    #[cfg(rip_verif)]
+    rip_kernel::verif::point("index.renamed", || serde_json::json!({}));
     Ok(())
 }
 
